@@ -84,6 +84,26 @@ Theorem C11_W_Angle : forall v s,
 Proof. exact W_Angle. Qed.
 Print Assumptions C11_W_Angle.
 
+Theorem C11_W_Percentage : forall v s,
+  ST_Percentage__to_xml v = Ok (PStr s) -> lex_ok (LInt (-2147483648) 2147483647) s = true.
+Proof. exact W_Percentage. Qed.
+Print Assumptions C11_W_Percentage.
+
+Theorem C11_W_PositiveFixedPercentage : forall v s,
+  ST_PositiveFixedPercentage__to_xml v = Ok (PStr s) -> lex_ok (LInt 0 100000) s = true.
+Proof. exact W_PositiveFixedPercentage. Qed.
+Print Assumptions C11_W_PositiveFixedPercentage.
+
+Theorem C11_W_TextSpacingPercent : forall v s,
+  ST_TextSpacingPercentOrPercentString__to_xml v = Ok (PStr s) -> lex_ok (LInt 0 13200000) s = true.
+Proof. exact W_TextSpacingPercent. Qed.
+Print Assumptions C11_W_TextSpacingPercent.
+
+Theorem C11_W_TextFontScalePercent : forall v s,
+  ST_TextFontScalePercentOrPercentString__to_xml v = Ok (PStr s) -> lex_ok (LInt 1000 100000) s = true.
+Proof. exact W_TextFontScalePercent. Qed.
+Print Assumptions C11_W_TextFontScalePercent.
+
 (** non-vacuity *)
 Example C11_ex_rows : (0 < length (filter (fun r => N.eqb (w_verdict r) 0) rows))%nat
                    /\ (0 < length (filter (fun r => N.eqb (r_verdict r) 0) rows))%nat.
